@@ -680,4 +680,300 @@ Proof.
   - exists (dflt t). rewrite with_dflt_eta. tauto.
 Qed.
 
+Lemma tget_reselect t d1 j : (tlen t = 1 -> d1 = dflt t) -> tget (with_dflt t d1) j = tget t j.
+Proof.
+  intro H. unfold tget, with_dflt. cbn. destruct (N.eqb_spec (tlen t) 1) as [E|E]; [now apply H|reflexivity].
+Qed.
+
+(* the representation after one entry x of bucket idx was unlinked and deleted *)
+Lemma rep_removed t l ch t' k x idx c' :
+  Rep t l ch -> idx < tlen t -> Permutation (ch idx) (x :: c') -> get (ekey t) x = k ->
+  tlen t' = tlen t -> ekey t' = ekey t -> evl t' = evl t -> nid t' = nid t ->
+  cnt t' = cnt t - 1 ->
+  (forall i, i < tlen t -> chain (elive t') (enext t') (tget t' i) (upd ch idx c' i)) ->
+  (1 < tlen t -> dflt t <> None -> dflt t' <> None) ->
+  Rep t' (aremove k l) (upd ch idx c').
+Proof.
+  intros R Hidx Hpc Hk Htl Hek Hev Hni Hcn Hch Hdf.
+  assert (Hnb : nb t' = nb t) by (unfold nb; now rewrite Htl).
+  assert (Hperm : Permutation (alld ch (nb t)) (x :: alld (upd ch idx c') (nb t))).
+  { apply alld_upd_uncons; [apply lt_nb; exact Hidx|exact Hpc]. }
+  assert (Hx : In x (alld ch (nb t))).
+  { eapply Permutation_in; [apply Permutation_sym; exact Hperm|now left]. }
+  pose proof (rep_in_l _ _ _ R _ Hx) as Hxl. unfold kv in Hxl. rewrite Hk in Hxl.
+  assert (Hkv : forall a, map (kv t') a = map (kv t) a).
+  { intro a. apply map_ext. intro e. unfold kv. now rewrite Hek, Hev. }
+  constructor.
+  - rewrite Htl. apply (r_len _ _ _ R).
+  - intros i Hi. apply Hch. now rewrite Htl in Hi.
+  - rewrite Hnb. pose proof (r_nodup _ _ _ R) as Hnd.
+    eapply Permutation_NoDup in Hnd; [|exact Hperm]. now inversion Hnd.
+  - intros i e Hi He. rewrite Htl in Hi |- *. rewrite Hek.
+    apply (r_idx _ _ _ R); [exact Hi|]. unfold upd in He.
+    destruct (N.eqb_spec i idx) as [->|Hd]; [|exact He].
+    eapply Permutation_in; [apply Permutation_sym; exact Hpc|now right].
+  - rewrite Hnb, Hkv. apply (perm_remove_mid [] _ k (get (evl t) x)); [apply (r_keys _ _ _ R)|].
+    cbn [app]. rewrite <- (r_perm _ _ _ R), (Permutation_map _ Hperm). cbn [map]. unfold kv at 2.
+    now rewrite Hk.
+  - apply aremove_keys_nodup, (r_keys _ _ _ R).
+  - rewrite Hcn, (r_cnt _ _ _ R).
+    rewrite (aremove_length_in k _ l (r_keys _ _ _ R) Hxl). lia.
+  - intros e He. rewrite Hni. apply (r_fresh _ _ _ R). rewrite Hnb in He.
+    eapply Permutation_in; [apply Permutation_sym; exact Hperm|now right].
+  - rewrite Htl. intros H1 Hd. exfalso. apply (Hdf H1); [|exact Hd].
+    intro Hn. pose proof (r_dflt _ _ _ R H1 Hn) as Hl. rewrite Hl in Hxl. destruct Hxl.
+Qed.
+
+Lemma unlink_ok t l ch k pre x suf d1 :
+  Rep t l ch -> ch (index_of t k) = pre ++ x :: suf -> get (ekey t) x = k ->
+  (tlen t = 1 -> d1 = dflt t) -> (dflt t <> None -> d1 <> None) ->
+  let t1 := with_dflt t d1 in
+  exists t2,
+    match last_opt pre with
+    | Some p => if get (elive t1) p then Some (with_next t1 p (get (enext t1) x)) else None
+    | None => Some (tset t1 (index_of t k) (get (enext t1) x))
+    end = Some t2 /\
+    Rep (kill (with_cnt t2 (cnt t2 - 1)) x) (aremove k l) (upd ch (index_of t k) (pre ++ suf)).
+Proof.
+  intros R Hc Hk Hd1 Hd2 t1.
+  set (idx := index_of t k) in *.
+  pose proof (index_lt t k (r_len _ _ _ R)) as Hi. fold idx in Hi.
+  pose proof (r_chain _ _ _ R _ Hi) as Hch. rewrite Hc in Hch.
+  assert (Hnd : NoDup (pre ++ x :: suf)).
+  { rewrite <- Hc. eapply alld_bucket_nodup; [apply lt_nb; exact Hi|apply (r_nodup _ _ _ R)]. }
+  assert (Hxo : forall i, i < tlen t -> i <> idx -> ~ In x (ch i)).
+  { intros i Hi' Hne. eapply (alld_disjoint ch idx i (nb t)); try (apply lt_nb; assumption).
+    - apply (r_nodup _ _ _ R).
+    - congruence.
+    - rewrite Hc. apply in_or_app. right. now left. }
+  assert (Hxs : ~ In x (pre ++ suf)) by (now apply NoDup_remove_2 in Hnd).
+  assert (Hpc : Permutation (ch idx) (x :: pre ++ suf)).
+  { rewrite Hc. apply Permutation_sym, Permutation_middle. }
+  assert (Hg : forall j, tget t1 j = tget t j) by (intro j; now apply tget_reselect).
+  destruct (last_opt pre) as [p|] eqn:Hp.
+  - (* prev != nullptr *)
+    apply last_opt_some in Hp. destruct Hp as [pre' ->].
+    rewrite <- app_assoc in Hc, Hch, Hnd, Hxs. cbn [app] in Hc, Hch, Hnd, Hxs.
+    assert (Hpin : In p (ch idx)) by (rewrite Hc; apply in_or_app; right; now left).
+    assert (Hlp : get (elive t) p = true).
+    { eapply chain_live; [exact Hch|]. apply in_or_app. right. now left. }
+    change (elive t1) with (elive t). change (enext t1) with (enext t). rewrite Hlp.
+    eexists. split; [reflexivity|].
+    apply (rep_removed t l ch _ k x idx); try assumption; try reflexivity.
+    + intros i Hi'. cbn [kill with_cnt with_next elive enext].
+      change (tget _ i) with (tget t1 i). rewrite Hg. unfold upd.
+      destruct (N.eqb_spec i idx) as [->|Hne].
+      * rewrite <- app_assoc. cbn [app]. apply chain_set_live; [exact Hxs|].
+        apply chain_unlink; assumption.
+      * apply chain_set_live; [now apply Hxo|]. apply chain_set_next; [|now apply (r_chain _ _ _ R)].
+        eapply (alld_disjoint ch idx i (nb t)); try (apply lt_nb; assumption); try congruence.
+        apply (r_nodup _ _ _ R).
+    + intros _ Hdn. cbn. now apply Hd2.
+  - (* prev == nullptr: x is the head of its chain *)
+    apply last_opt_none in Hp. subst pre. cbn [app] in *.
+    pose proof (chain_head_cons _ _ _ _ _ Hch) as Hh.
+    rewrite Hh in Hch. apply chain_some in Hch. destruct Hch as [c' [E [Hlx Hcs]]]. injection E as <-.
+    eexists. split; [reflexivity|].
+    change (enext t1) with (enext t).
+    apply (rep_removed t l ch _ k x idx); try assumption.
+    + destruct (N.eq_dec (tlen t) 1) as [E1|E1];
+        [rewrite tset_one by exact E1|rewrite tset_big by exact E1]; reflexivity.
+    + destruct (N.eq_dec (tlen t) 1) as [E1|E1];
+        [rewrite tset_one by exact E1|rewrite tset_big by exact E1]; reflexivity.
+    + destruct (N.eq_dec (tlen t) 1) as [E1|E1];
+        [rewrite tset_one by exact E1|rewrite tset_big by exact E1]; reflexivity.
+    + destruct (N.eq_dec (tlen t) 1) as [E1|E1];
+        [rewrite tset_one by exact E1|rewrite tset_big by exact E1]; reflexivity.
+    + destruct (N.eq_dec (tlen t) 1) as [E1|E1];
+        [rewrite tset_one by exact E1|rewrite tset_big by exact E1]; reflexivity.
+    + intros i Hi'. unfold upd.
+      destruct (N.eq_dec (tlen t) 1) as [E1|E1].
+      * rewrite tset_one by exact E1. assert (i = idx) by lia. subst i. rewrite N.eqb_refl.
+        rewrite tget_one by exact E1. cbn. now apply chain_set_live.
+      * rewrite tset_big by exact E1. rewrite tget_big by exact E1. cbn. rewrite get_set.
+        destruct (N.eqb_spec i idx) as [->|Hne]; [now apply chain_set_live|].
+        apply chain_set_live; [now apply Hxo|].
+        pose proof (r_chain _ _ _ R i Hi') as Hci. now rewrite tget_big in Hci by exact E1.
+    + intros H1 Hdn. rewrite tset_big by (cbn; lia). cbn. now apply Hd2.
+Qed.
+
+Lemma remove_loop_ok t l ch k :
+  Rep t l ch ->
+  forall suf pre e fuel,
+    ch (index_of t k) = pre ++ suf ->
+    chain (elive t) (enext t) e suf ->
+    (forall y, In y pre -> get (ekey t) y <> k) ->
+    (length suf < fuel)%nat ->
+    exists t' b, remove_loop fuel t (index_of t k) (last_opt pre) e k = Some (t', b) /\
+      match alookup k l with
+      | Some _ => b = true /\ Inv t' (aremove k l)
+      | None => b = false /\ t' = t
+      end.
+Proof.
+  intro R. induction suf as [|x suf IH]; intros pre e fuel Hc Hch Hpre Hf.
+  - apply chain_head_nil in Hch. subst e.
+    exists t, false. split; [destruct fuel; reflexivity|].
+    destruct (alookup k l) as [v|] eqn:A; [|tauto]. exfalso.
+    destruct (rep_lookup_bucket _ _ _ R _ _ A) as [y [Hy [Ek _]]].
+    rewrite Hc, app_nil_r in Hy. now apply (Hpre y Hy).
+  - pose proof (chain_head_cons _ _ _ _ _ Hch) as ->.
+    pose proof Hch as Hch0.
+    apply chain_some in Hch. destruct Hch as [c' [E [Hl Hcs]]]. injection E as <-.
+    destruct fuel as [|f]; [cbn in Hf; lia|]. cbn [remove_loop]. rewrite Hl.
+    destruct (N.eqb_spec (get (ekey t) x) k) as [Ek|Ek]; cbn [negb].
+    + (* found *)
+      destruct (reselect_ok t l ch k pre x suf R Hc) as [d1 [E1 [Hd1 Hd2]]].
+      destruct (unlink_ok t l ch k pre x suf d1 R Hc Ek Hd1 Hd2) as [t2 [E2 R2]].
+      eexists _, true. split.
+      * cbn zeta in E1. rewrite E1. cbn [bind]. cbn zeta in E2. rewrite E2. cbn [bind]. reflexivity.
+      * assert (A : alookup k l = Some (get (evl t) x)).
+        { rewrite <- Ek at 1. apply (rep_lookup_some t l ch R x).
+          apply (rep_in_all t ch (index_of t k)); [apply index_lt, (r_len _ _ _ R)|].
+          rewrite Hc. apply in_or_app. right. now left. }
+        rewrite A. split; [reflexivity|]. eexists. exact R2.
+    + (* prev = entry; continue *)
+      rewrite <- (last_opt_snoc pre x).
+      apply IH; [now rewrite <- app_assoc|exact Hcs| |cbn in Hf; lia].
+      intros y Hy. apply in_app_or in Hy. destruct Hy as [Hy|[<-|[]]]; [now apply Hpre|exact Ek].
+Qed.
+
+Lemma remove_ok t l k :
+  Inv t l ->
+  exists t' b, remove t k = Some (t', b) /\
+    match alookup k l with
+    | Some _ => b = true /\ Inv t' (aremove k l)
+    | None => b = false /\ t' = t
+    end.
+Proof.
+  intros [ch R]. unfold Model.remove.
+  change (@None N) with (last_opt []).
+  apply (remove_loop_ok t l ch k R (ch (index_of t k)) []).
+  - reflexivity.
+  - apply (r_chain _ _ _ R). apply index_lt, (r_len _ _ _ R).
+  - intros y [].
+  - eapply rep_fuel; [exact R|]. apply index_lt, (r_len _ _ _ R).
+Qed.
+
+(* ---- every operation of the set refines the association list -------------------------- *)
+Lemma init_inv : Inv init_tbl [].
+Proof.
+  exists (fun _ => []). constructor; cbn [init_tbl tlen elive enext cnt nid dflt length map];
+    try (unfold nb; cbn [init_tbl tlen]).
+  - lia.
+  - intros i _. rewrite tget_one by reflexivity. cbn. constructor.
+  - rewrite alld_nil. constructor.
+  - intros i e _ [].
+  - rewrite alld_nil. constructor.
+  - constructor.
+  - reflexivity.
+  - rewrite alld_nil. intros e [].
+  - lia.
+Qed.
+
+Lemma exec_sop_ok t l o :
+  Inv t l ->
+  exists t', exec_sop t o = Some (t', snd (spec_sop l o)) /\ Inv t' (fst (spec_sop l o)).
+Proof.
+  intros [ch R]. destruct o as [k v|k v|k|k| |n| | |]; cbn [Model.exec_sop spec_sop].
+  - (* addKeyValue(k) = v *)
+    destruct (add_key_entry_ok t l ch k None R) as [t1 [x [l1 [ch1 [E [R1 [Hin [Hk [Hl Ha]]]]]]]]].
+    rewrite E. cbn [bind]. rewrite Hl. eexists. split; [reflexivity|]. cbn [fst].
+    exists ch1. pose proof (rep_with_val t1 l1 ch1 x v R1 Hin) as R2. rewrite Hk in R2.
+    destruct (alookup k l) as [w|].
+    + destruct Ha as [-> _]. exact R2.
+    + destruct Ha as [-> _]. unfold aset in R2 |- *. cbn [aremove] in R2.
+      now rewrite N.eqb_refl in R2.
+  - (* addKeyValue(k, v) *)
+    destruct (add_key_entry_ok t l ch k (Some v) R) as [t1 [x [l1 [ch1 [E [R1 [Hin [Hk [Hl Ha]]]]]]]]].
+    rewrite E. cbn [bind]. rewrite Hl.
+    destruct (alookup k l) as [w|].
+    + destruct Ha as [-> ->]. eexists. split; [reflexivity|]. now exists ch1.
+    + destruct Ha as [-> Hv]. rewrite (Hv v eq_refl) in *.
+      eexists. split; [reflexivity|]. now exists ch1.
+  - (* findKeyValue *)
+    unfold Model.find_key_value, Model.find_key_entry.
+    destruct (rep_find t l ch k R) as [r [E Hr]]. rewrite E. cbn [bind].
+    destruct r as [x|].
+    + destruct Hr as [Hin [Hk Ha]].
+      rewrite (chain_live _ _ _ _ _ (r_chain _ _ _ R _ (index_lt t k (r_len _ _ _ R))) Hin).
+      cbn [bind]. rewrite Ha. eexists. split; [reflexivity|]. now exists ch.
+    + cbn [bind]. rewrite Hr. eexists. split; [reflexivity|]. now exists ch.
+  - (* remove *)
+    destruct (remove_ok t l k (ex_intro _ ch R)) as [t' [b [E Hb]]]. rewrite E. cbn [bind].
+    destruct (alookup k l) as [w|].
+    + destruct Hb as [-> I']. eexists. split; [reflexivity|exact I'].
+    + destruct Hb as [-> ->]. eexists. split; [reflexivity|]. now exists ch.
+  - (* clear *)
+    destruct (clear_ok t l ch R) as [t' [E R']]. rewrite E. cbn [bind].
+    eexists. split; [reflexivity|]. eexists. exact R'.
+  - (* resize *)
+    destruct (resize_ok t l ch n R) as [t' [ch' [E R']]]. rewrite E. cbn [bind].
+    eexists. split; [reflexivity|]. now exists ch'.
+  - (* shrink *)
+    unfold Model.shrink. destruct (N.eqb_spec (cnt t) 0) as [E0|E0].
+    + destruct (clear_ok t l ch R) as [t' [E R']]. rewrite E. cbn [bind].
+      eexists. split; [reflexivity|]. cbn [fst].
+      rewrite (r_cnt _ _ _ R) in E0. destruct l; [|cbn in E0; lia]. eexists. exact R'.
+    + destruct (resize_ok t l ch (cnt t) R) as [t' [ch' [E R']]]. rewrite E. cbn [bind].
+      eexists. split; [reflexivity|]. now exists ch'.
+  - (* size *)
+    rewrite (r_cnt _ _ _ R). eexists. split; [reflexivity|]. now exists ch.
+  - (* enumerate: the observation does it *)
+    eexists. split; [reflexivity|]. now exists ch.
+Qed.
+
+Lemma observe_ok full o t l r :
+  Inv t l -> observe full o t r = Some (spec_observe full o l r).
+Proof.
+  intro I. unfold observe, spec_observe.
+  assert (Hc : cnt t = N.of_nat (length l)) by (destruct I as [ch R]; apply (r_cnt _ _ _ R)).
+  destruct (full || is_enum o).
+  - destruct (enumerate_sorted t l I) as [el [E Hs]]. rewrite E. cbn [bind]. now rewrite Hs, Hc.
+  - now rewrite Hc.
+Qed.
+
+Lemma step_ok full s a o :
+  Inv (sset s) (fst a) -> Inv (smap s) (snd a) ->
+  exists s', step full s o = Some (s', snd (spec_step full a o)) /\
+    Inv (sset s') (fst (fst (spec_step full a o))) /\
+    Inv (smap s') (snd (fst (spec_step full a o))).
+Proof.
+  intros Is Im. unfold Model.step, spec_step. destruct (on_map o).
+  - destruct (exec_sop_ok (smap s) (snd a) (map_sop o) Im) as [t' [E I']]. rewrite E. cbn [bind].
+    destruct (spec_sop (snd a) (map_sop o)) as [l' r]. cbn [fst snd] in *.
+    rewrite (observe_ok full (map_sop o) t' l' r I'). cbn [bind].
+    eexists. split; [reflexivity|]. cbn. tauto.
+  - destruct (exec_sop_ok (sset s) (fst a) (map_sop o) Is) as [t' [E I']]. rewrite E. cbn [bind].
+    destruct (spec_sop (fst a) (map_sop o)) as [l' r]. cbn [fst snd] in *.
+    rewrite (observe_ok full (map_sop o) t' l' r I'). cbn [bind].
+    eexists. split; [reflexivity|]. cbn. tauto.
+Qed.
+
+Lemma run_from_refines full : forall ops s a,
+  Inv (sset s) (fst a) -> Inv (smap s) (snd a) ->
+  run_from full s ops = map Some (spec_from full a ops).
+Proof.
+  induction ops as [|o ops IH]; intros s a Is Im; cbn [Model.run_from spec_from map]; [reflexivity|].
+  destruct (step_ok full s a o Is Im) as [s' [E [Is' Im']]]. rewrite E.
+  destruct (spec_step full a o) as [a' ob]. cbn [fst snd] in *. cbn [map]. f_equal.
+  now apply IH.
+Qed.
+
 End WithHash.
+
+(* the main theorem: for every hash function, whether the container is enumerated after
+   every operation or on demand, and every sequence of operations on the set and the map *)
+Theorem run_refines_spec :
+  forall (hash : N -> N) (full : bool) (ops : list op),
+    run hash full ops = map Some (spec_run full ops).
+Proof.
+  intros hash full ops. unfold run, spec_run.
+  apply run_from_refines; cbn; apply init_inv.
+Qed.
+
+Corollary run_never_fails :
+  forall (hash : N -> N) (full : bool) (ops : list op), ~ In None (run hash full ops).
+Proof.
+  intros hash full ops H. rewrite run_refines_spec in H.
+  apply in_map_iff in H. destruct H as [x [E _]]. discriminate.
+Qed.
